@@ -477,7 +477,14 @@ def getitem(I, st, obj, idx):
             return
         if e.kind == "symlist":
             if isinstance(idx, SliceVal):
-                raise Unsupported("slice of symbolic-length list")
+                if idx.lo is None and idx.step is None and idx.hi is not None:
+                    # prefix L[:k]  (python clamps k into [0, len]; negative k counts from the end)
+                    k = z3val(as_arith(idx.hi))
+                    n = e.length
+                    kk = z3.If(k < 0, z3.If(k + n < 0, z3.IntVal(0), k + n), z3.If(k > n, n, k))
+                    yield st, st.alloc(SymListE(z3.simplify(kk), e.arr))
+                    return
+                raise Unsupported("slice of symbolic-length list (only prefixes L[:k] are modelled)")
             i = z3val(as_arith(idx))
             if not z3.is_int(i):
                 yield st, exc("TypeError", "list indices must be integers")
